@@ -672,7 +672,7 @@ impl Prop for C09 {
                 "bounds as listed under coverage.families; start indices 0, 1000 and the largest start for which the numbering fits u32 (numbering that would wrap the index type is not explored)".into(),
                 "sources are finite and fused (return None forever after their end)".into(),
             ],
-            budget_s: (35, 1200),
+            budget_s: (90, 1200),
             workers: 0,
             required_landmarks: vec![
                 "empty_source",
